@@ -406,6 +406,7 @@ pub fn check_hashsim(property: &str, tier: &str) -> i32 {
     let mut rt_full = 0u64;
     let mut below_attainable: Vec<String> = Vec::new();
     let mut printed_by_subject: BTreeMap<String, (u64, u64)> = BTreeMap::new();
+    let mut worker_input_of: BTreeMap<(String, u64), Value> = BTreeMap::new();
     for r in results {
         match r {
             Err(e) => harness_errors.push(json!({"what": "worker failed", "error": e})),
@@ -430,6 +431,7 @@ pub fn check_hashsim(property: &str, tier: &str) -> i32 {
                     let e = printed_by_subject.entry(id.clone()).or_insert((0, 0));
                     e.0 = e.0.max(s["distinct_printed"].as_u64().unwrap_or(0));
                     e.1 = s["orders"].as_u64().unwrap_or(0);
+                    worker_input_of.insert((id.clone(), boot), v["input"].clone());
                     by_subject.entry(id).or_default().push((
                         boot,
                         s["canon_digest"].as_str().unwrap().to_string(),
@@ -488,7 +490,10 @@ pub fn check_hashsim(property: &str, tier: &str) -> i32 {
                             "class": "seed-dependent",
                             "detail": format!("alone in a process that did nothing before: {:.300}  |  in a process that had run the warm-up programs: {:.300}", o["canon"].as_str().unwrap_or(""), rec.2),
                             "subject_id": id,
+                            "origin": "cold-comparison",
                             "runs": [cold, warm],
+                            "worker_input": worker_input_of.get(&(id.clone(), rec.0)).cloned().unwrap_or(Value::Null),
+                            "worker_canon": rec.2,
                         }));
                     }
                 }
@@ -517,6 +522,7 @@ pub fn check_hashsim(property: &str, tier: &str) -> i32 {
     let mut history_searches = 0;
     let mut skipped_history = 0;
     let mut minimised_programs = 0;
+    let mut cold_unreproduced = 0u64;
     for c in candidates {
         let sid = format!("{}|{}", c["subject_id"].as_str().unwrap_or(""), c["class"].as_str().unwrap_or(""));
         if !seen_subjects.insert(sid) {
@@ -536,6 +542,29 @@ pub fn check_hashsim(property: &str, tier: &str) -> i32 {
                 };
                 c["sim"] = json!("hashsim");
                 confirmed.push(c);
+            }
+            Ok(false) if c["origin"].as_str() == Some("cold-comparison") => {
+                // the worker's outcome differs from a cold process, but a warmed-up process alone
+                // agrees with the cold one: the worker's own history (earlier subjects of its
+                // shard) is the cause. Replay that history and reduce it.
+                cold_unreproduced += 1;
+                let wi = &c["worker_input"];
+                let idx = plan.subjects.iter().position(|s| Some(s.id()) == c["subject_id"].as_str().map(|x| x.to_string()));
+                if history_searches >= 3 || wi.is_null() || idx.is_none() {
+                    continue;
+                }
+                history_searches += 1;
+                let mut hc = c.clone();
+                hc["at"] = json!({"idx": idx.unwrap(), "k": [0, 0], "repeat": [false, false], "shard": wi["shard"], "shards": wi["shards"], "canons": [c["worker_canon"], c["worker_canon"]]});
+                let mut warm = c["runs"][1].clone();
+                warm["cold"] = json!(false);
+                hc["runs"] = json!([warm]);
+                if let Ok(Some(mut h)) = history_search(&hc, property, tier, seed, n_subjects as usize, k as usize) {
+                    h["sim"] = json!("hashsim");
+                    if let Ok(true) = confirm_hashsim(&h) {
+                        confirmed.push(h);
+                    }
+                }
             }
             Ok(false) => {
                 // not reproducible from hash keys alone: look for the cause in the process history
@@ -598,6 +627,7 @@ pub fn check_hashsim(property: &str, tier: &str) -> i32 {
         "boot_seeds": boots,
         "worker_processes": boots * shards,
         "runs_after_unrelated_work": prefix_runs,
+        "cold_process_differences_explained_by_worker_history": cold_unreproduced,
         "simulated_time_events": events,
         "runs_per_hour": (runs as f64 / wall * 3600.0) as u64,
         "seeds_per_hour": (runs as f64 / wall * 3600.0) as u64,
@@ -680,7 +710,7 @@ pub fn check_cellsim(property: &str, tier: &str) -> i32 {
     let runs: u64 = match (property, thorough) {
         ("C13", false) => 24_000,
         ("C13", true) => 1_200_000,
-        ("C16", false) => 40_000,
+        ("C16", false) => 120_000,
         (_, _) => 2_400_000,
     };
     let mut jobs = Vec::new();
@@ -980,7 +1010,7 @@ pub fn check_ossim(property: &str, tier: &str) -> i32 {
     let par = workers();
     let boots = if thorough { 4 } else { 2 };
     let shards = (par / boots).max(1);
-    let runs: u64 = if property == "C03" { 0 } else if thorough { 1_200_000 } else { 48_000 };
+    let runs: u64 = if property == "C03" { 0 } else if thorough { 1_200_000 } else { 80_000 };
     let validate: u64 = if property == "C03" { 0 } else if thorough { 20_000 } else { 150 };
     let nw = (boots * shards) as u64;
     let mut jobs = Vec::new();
@@ -1151,7 +1181,7 @@ pub fn check_replsim(property: &str, tier: &str) -> i32 {
     let par = workers();
     let boots = if thorough { 4 } else { 2 };
     let shards = (par / boots).max(1);
-    let runs: u64 = if thorough { 400_000 } else { 6_000 };
+    let runs: u64 = if thorough { 400_000 } else { 16_000 };
     let nw = (boots * shards) as u64;
     let mut jobs = Vec::new();
     for b in 0..boots {
